@@ -36,6 +36,11 @@ QUERIES = {
                   'hasElse(callExpr(callee(functionDecl(unless(isConstexpr())))).bind("x")))',
     "NCCALL_OK3": 'ifStmt(hasCondition(ignoringParenImpCasts(callExpr(callee(functionDecl(hasName("is_constant_evaluated")))))), '
                   'hasElse(returnStmt(forEachDescendant(callExpr(callee(functionDecl(unless(isConstexpr())))).bind("x")))))',
+    # the run-time-only region may also be the then-arm of the negated test: if( !std::is_constant_evaluated() ) { ... }
+    "NCCALL_OK4": 'ifStmt(hasCondition(ignoringParenImpCasts(unaryOperator(hasOperatorName("!"), hasUnaryOperand(ignoringParenImpCasts('
+                  'callExpr(callee(functionDecl(hasName("is_constant_evaluated"))))))))), '
+                  'hasThen(anyOf(forEachDescendant(callExpr(callee(functionDecl(unless(isConstexpr())))).bind("x")), '
+                  'callExpr(callee(functionDecl(unless(isConstexpr())))).bind("x"))))',
     "BLOCK_ASM": 'asmStmt(hasAncestor(functionDecl(%s))).bind("x")' % NS,
     "BLOCK_GOTO": 'gotoStmt(hasAncestor(functionDecl(%s))).bind("x")' % NS,
     "BLOCK_RCAST": 'cxxReinterpretCastExpr(hasAncestor(functionDecl(isConstexpr(), %s))).bind("x")' % NS,
